@@ -168,11 +168,13 @@ def big_case(draw, tier):
     v = draw(st.one_of(st.integers(-3, 2).map(lambda d: (1 << k) + d), st.integers(0, 1 << 200), st.integers(0, 1 << 70)))
     if draw(st.booleans()):
         v = -v
-    return {'v': v, 'kind': draw(st.sampled_from(KINDS)), 'route': draw(st.sampled_from(CREATE_ROUTES)), 'cls': draw(cls_st)}
+    return {'v': v, 'kind': draw(st.sampled_from(KINDS)), 'route': draw(st.sampled_from(CREATE_ROUTES)), 'cls': draw(cls_st),
+            'opt_ba': draw(st.sampled_from([False, False, True]))}
 
 
 def run_big(case):
     v, kind = case['v'], case['kind']
+    bitstring_module().options.bytealigned = case.get('opt_ba', False)
     if v < 0 and kind in ('ue', 'uie'):
         res = attempt(create, kind, v, case['route'], case['cls'])
         require(is_raised(res, ValueError), f'negative value for {kind} must raise CreationError', got=res, v=v, route=case['route'])
@@ -234,10 +236,12 @@ def check_decode(bits, kind, clsname, prefix=''):
 def run_decoder(case):
     bits = case['bits']
     nt = False
-    for i, kind in enumerate(KINDS):
-        r = check_decode(bits, kind, CLASSES[(len(bits) + i) % 4])
-        if len(bits) >= 3 and (r == TRUNC or r[1] != len(bits)):
-            nt = True
+    for opt in (False, True):
+        bitstring_module().options.bytealigned = opt   # the ambient search default must not influence decoding
+        for i, kind in enumerate(KINDS):
+            r = check_decode(bits, kind, CLASSES[(len(bits) + i) % 4])
+            if len(bits) >= 3 and (r == TRUNC or r[1] != len(bits)):
+                nt = True
     return {'nt': nt}
 
 
@@ -259,10 +263,12 @@ def long_decoder_case(draw, tier):
         bits = enc(kind, v) + draw(st.text('01', max_size=5))
     else:
         bits = draw(st.text('01', max_size=60))
-    return {'bits': bits, 'kind': kind, 'cls': draw(cls_st), 'prefix': draw(st.text('01', max_size=9)) if draw(st.booleans()) else ''}
+    return {'bits': bits, 'kind': kind, 'cls': draw(cls_st), 'prefix': draw(st.text('01', max_size=9)) if draw(st.booleans()) else '',
+            'opt_ba': draw(st.sampled_from([False, False, True]))}
 
 
 def run_long_decoder(case):
+    bitstring_module().options.bytealigned = case.get('opt_ba', False)
     r = check_decode(case['bits'], case['kind'], case['cls'], case['prefix'])
     return {'nt': len(case['bits']) >= 3 and (r == TRUNC or r[1] != len(case['prefix'] + case['bits'])), 'labels': [case['kind'], 'trunc' if r == TRUNC else 'ok']}
 
@@ -280,11 +286,13 @@ def seq_case(draw, tier):
             v = -v
         items.append([kind, v])
     return {'items': items, 'prefix': draw(st.text('01', max_size=10)), 'cut': draw(st.integers(0, 6)) if draw(st.integers(0, 2)) == 0 else 0,
-            'cls': draw(st.sampled_from(['ConstBitStream', 'BitStream'])), 'mode': draw(st.sampled_from(['read', 'readlist', 'unpack', 'readlist_str', 'mixed']))}
+            'cls': draw(st.sampled_from(['ConstBitStream', 'BitStream'])), 'mode': draw(st.sampled_from(['read', 'readlist', 'unpack', 'readlist_str', 'mixed'])),
+            'opt_ba': draw(st.sampled_from([False, False, True]))}
 
 
 def run_seq(case):
     bs = bitstring_module()
+    bs.options.bytealigned = case.get('opt_ba', False)
     items = case['items']
     codes = [enc(k, v) for k, v in items]
     body = ''.join(codes)
